@@ -10,6 +10,7 @@ import (
 	"context"
 	"errors"
 	"fmt"
+	"io"
 	"sort"
 	"sync"
 	"time"
@@ -55,6 +56,7 @@ func rsRunFine(v *rsFineVariant) (rsObs, string) {
 		b.mu.Lock()
 		k := len(b.conns)
 		c := newMemConn(k, b.onWrite)
+		c.localCloseErr = io.ErrClosedPipe
 		b.conns = append(b.conns, c)
 		b.accepted = append(b.accepted, false)
 		b.sent = append(b.sent, 0)
@@ -201,7 +203,7 @@ func rsRunFine(v *rsFineVariant) (rsObs, string) {
 		b.mu.Lock()
 		c0 := b.conns[0]
 		b.mu.Unlock()
-		c0.Close()
+		c0.cut()
 		lab("LIdleCut")
 		// the held task
 		mu.Lock()
